@@ -62,6 +62,9 @@ fn main() {
          rip_buttons (exhaustive): RIP_BUTTON_STYLE with label orientation 02 and {no flag, every single bit of both flag fields, all bits, every pair with the underline-hot-key bit, each also with the highlight-hot-key bit} x sizes / bevel {default,0,1,max} x 6 (hot key, text) pairs, \
          plus 8 flag sets around the hot-key bits x hot key {0,'A','x','#',0x7F,0x80,0xE9,0xFF,ZZ} x label {ASCII, Latin-1 with those hot keys, above U+00FF, empty, text variable, single e-acute} x 9 text layouts (0..=4 `<>` separators, icon / host-command slots empty and filled). \
          rip_styles (exhaustive): font 0..=11 x direction x size {1,4,10} x write mode 0..=4 x {T, @ near the lower right corner} x 5 alphabets x {3, 130 characters}. \
+         rip_lists / igs_lists (exhaustive): count fields with the lists they announce, written out in full with in-canvas coordinates: RIP P / p / l with npoints {0,1,2,511,512,513,1024,ZZ} x {as announced, one point short, one more, twice as many, none} \
+         x continuation lines {none, every 76 / 40 / 4 characters} x {fresh, preamble}; IGS f / z with point counts {0,1,2,127,128,129,256,512,99999} and & loops with declared counts {0..5,8,2047,2048,2049,99999}, same completeness classes (lists capped at 2300 numbers), \
+         line breaks {none, CR LF, underscore CR LF} before every 8th number. The random parts insert such lists now and then. \
          rip_fill_states / igs_fill_states (exhaustive): canvas preparations {fresh; filled box / outline or line / ellipse in pens incl. 0 and the background pen, placed inside, touching each edge and corner, crossing the lower / right edge, \
          covering the screen and more; the same after a viewport (RIP) / resolution (IGS) change} x fill colour {0,(1),2,15} x fill pattern {solid, pattern} x {flood fill from 13 seed points (inside, just outside, every edge row / column, the corners, \
          one beyond the lower and the right edge; RIP: border = the shape's pen or an absent colour), get / put / copy of the shape in replace and XOR mode followed by a fill}. The random parts insert such prepare-choose-fill groups, button style (random flag bits) + button groups and font / write mode / text groups (about 1 group in 5 is one of these). \
@@ -135,6 +138,16 @@ fn main() {
     let mult = spread_multiplier(total);
     let k13 = known.clone();
     eng.enumerated(iso("rip_styles", 0, 0).exhaustive(true), total, move |i| rip::styles_case(i * mult % total), move |c| rip::check(c, &k13));
+
+    // ---- count fields with the lists they announce
+    let total = rip::lists_total();
+    let mult = spread_multiplier(total);
+    let k14 = known.clone();
+    eng.enumerated(iso("rip_lists", 0, 0).exhaustive(true), total, move |i| rip::lists_case(i * mult % total), move |c| rip::check(c, &k14));
+    let total = igs::lists_total();
+    let mult = spread_multiplier(total);
+    let k15 = known.clone();
+    eng.enumerated(iso("igs_lists", 0, 0).exhaustive(true), total, move |i| igs::lists_case(i * mult % total), move |c| igs::check(c, &k15));
 
     // ---- content-dependent commands on prepared canvases
     let total = rip::fill_states_total();
